@@ -72,6 +72,8 @@ def _comp_result_is_order_free(fn, pm, gen):
 
 
 def check(ctx):
+    from ..lib import discarded_results
+    ctx.sub(discarded_results, 'C18.shared', ('qstrader/',), 'no step silently works on the last element of a loop or on a discarded copy')
     M = ctx.M
     ctx.sub(set_order)
     ctx.sub(fs_order)
